@@ -290,7 +290,7 @@ def view(P, f, keep=None):
             sel = lambda g: base(g) or (auto(g) and g.spath not in pinned)
         v = I.inline(P, f, sel)
         cache[k] = v if v.inlined else f
-        if not v.inlined:
+        if not hasattr(f, "inlined"):
             f.inlined = []
     return cache[k]
 
@@ -319,3 +319,134 @@ def facts(fn, relevant=None, tag=None):
     if tag not in cache:
         cache[tag] = FA.Facts(fn, relevant=relevant)
     return cache[tag]
+
+
+def flag_reach(fn, start, env0=None, cap=200000, avoid=()):
+    """blocks reachable from `start` when switches on *known* flags follow only their feasible edge.
+    Known = a bool local last assigned a constant, an enum local last assigned a fieldless-or-not variant of a crate enum (an outcome
+    enum such as `LineOutcome::Stop`), or such a value wrapped in Ok / Some / Continue and unwrapped again through `?`.
+    This is what makes `let stop = ..; if stop { break }` and `match process_line()? { Stop => break, .. }` read like a direct break."""
+    env0 = env0 or {}
+    seen = set()
+    out = set()
+    work = [(start, tuple(sorted(env0.items(), key=lambda x: x[0])))]
+    n = 0
+    WRAP = ("Ok", "Some", "Continue")
+    FAIL = ("Err", "None", "Break")
+    avoid = set(avoid)
+
+    def val_of(op, env):
+        if op["k"] == "const":
+            if op.get("v") in ("true", "false"):
+                return ("const", op["v"] == "true")
+            if "promoted" in op and op["promoted"] < len(fn.promoted):
+                # a promoted constant such as `&FollowControl::Stop`
+                for pb in fn.promoted[op["promoted"]]["blocks"]:
+                    for ps in pb["stmts"]:
+                        if ps["k"] == "assign" and ps["rv"]["k"] == "aggr" and ps["rv"].get("variant") and \
+                                (ps["rv"].get("adt") or "").startswith("sqlgrep::") and not ps["rv"]["ops"]:
+                            return ("variant", ps["rv"]["variant"])
+            return None
+        pl = op["pl"]
+        v = env.get(pl["l"])
+        if v is None:
+            return None
+        # payload projection: (x as Ok).0 unwraps one layer
+        proj = [e for e in pl["p"] if isinstance(e, dict)]
+        if not pl["p"]:
+            return v
+        if len(proj) == 2 and "d" in proj[0] and proj[0]["d"] in WRAP and "f" in proj[1] and v[0] == "wrap" and \
+                all(isinstance(e, dict) for e in pl["p"]):
+            return v[1]      # may be None: wrapped value unknown
+        return None
+
+    while work:
+        b, envt = work.pop()
+        if (b, envt) in seen:
+            continue
+        seen.add((b, envt))
+        n += 1
+        if n > cap:
+            return None
+        if b in avoid:
+            continue
+        out.add(b)
+        env = dict(envt)
+        for s in fn.blocks[b]["stmts"]:
+            if s["k"] != "assign" or s["pl"]["p"]:
+                continue
+            l = s["pl"]["l"]
+            rv = s["rv"]
+            k = rv["k"]
+            v = None
+            if k == "use":
+                v = val_of(rv["op"], env)
+            elif k in ("ref", "copy_for_deref") and not [e for e in rv["pl"]["p"] if e != "*"]:
+                v = env.get(rv["pl"]["l"])       # a borrow of a known value is that value (read-only use)
+            elif k == "unop" and rv["op"] == "Not":
+                x = val_of(rv["o"], env)
+                v = ("const", not x[1]) if x and x[0] == "const" else None
+            elif k == "aggr" and rv.get("ak") == "adt" and rv.get("variant"):
+                if rv["variant"] in WRAP and len(rv["ops"]) == 1:
+                    x = val_of(rv["ops"][0], env)
+                    v = ("wrap", x) if x is not None else ("wrap", None)
+                elif rv["variant"] in FAIL and (rv.get("adt") or "").startswith("core::"):
+                    v = ("fail",)
+                elif (rv.get("adt") or "").startswith("sqlgrep::"):
+                    v = ("variant", rv["variant"])
+            if v is None:
+                env.pop(l, None)
+            else:
+                env[l] = v
+        t = fn.blocks[b]["term"]
+        succs = fn.succs(b)
+        if t["k"] == "call" and t.get("dest") is not None and not t["dest"]["p"]:
+            dl = t["dest"]["l"]
+            nm = short(t["func"].get("res_path") or t["func"].get("path") or "")
+            if nm.endswith("Try>::branch") and t["args"]:
+                x = val_of(t["args"][0], env)
+                if x is not None:
+                    env[dl] = x
+                else:
+                    env.pop(dl, None)
+            elif nm.endswith("::from_residual"):
+                env[dl] = ("fail",)        # the `?` error path builds the Err / None that is returned
+            elif re.search(r"PartialEq(<.*>)?>?::(eq|ne)$", nm) and len(t["args"]) == 2:
+                a_, b_ = val_of(t["args"][0], env), val_of(t["args"][1], env)
+                if a_ is not None and b_ is not None and a_[0] == "variant" and b_[0] == "variant":
+                    same = a_[1] == b_[1]
+                    env[dl] = ("const", same if nm.endswith("eq") else not same)
+                else:
+                    env.pop(dl, None)
+            else:
+                env.pop(dl, None)
+        if t["k"] == "switch":
+            d = t["discr"]
+            v = None
+            if d["k"] in ("copy", "move"):
+                if d.get("ty") == "bool":
+                    v = val_of(d, env)
+                else:
+                    # discriminant temp: find `d = discriminant(place)` in this block
+                    for s in fn.blocks[b]["stmts"]:
+                        if s["k"] == "assign" and s["pl"]["l"] == d["pl"]["l"] and s["rv"]["k"] == "discr":
+                            src = s["rv"]["pl"]
+                            base = env.get(src["l"]) if not [e for e in src["p"] if e != "*"] else None
+                            names = {dv: nme for dv, nme in s["rv"].get("variants", [])}
+                            if base is not None and base[0] == "variant":
+                                v = ("label", [lab for lab, nme in names.items() if nme == base[1]])
+                            elif base is not None and base[0] == "wrap":
+                                v = ("label", [lab for lab, nme in names.items() if nme in WRAP])
+                            elif base is not None and base[0] == "fail":
+                                v = ("label", [lab for lab, nme in names.items() if nme in FAIL])
+            if v is not None and v[0] == "const":
+                zero = [bb for val, bb in t["targets"] if val == "0"]
+                succs = [t["otherwise"]] if v[1] else zero
+            elif v is not None and v[0] == "label" and v[1]:
+                tg = [bb for val, bb in t["targets"] if val in v[1]]
+                succs = tg if tg else [t["otherwise"]]
+        key = tuple(sorted(env.items(), key=lambda x: x[0]))
+        for y in succs:
+            if y in fn.succs(b):
+                work.append((y, key))
+    return out
